@@ -178,11 +178,14 @@ def cardinal_cubic(knots, x, periodic=False):
                     A[r] = [v - f * w for v, w in zip(A[r], A[c])]
         return [row[k:] for row in A]
 
-    if periodic:
+    if periodic and (xq > t[n] or xq < t[0]):
+        xq = t[0] + (xq - t[0]) % (t[n] - t[0])
+    cache = cardinal_cubic.__dict__.setdefault("_cache", {})  # moments depend on the knots only
+    ckey = (tuple(t), bool(periodic))
+    if ckey in cache:
+        nf, Mall, Y = cache[ckey]
+    elif periodic:
         nf = n  # number of basis functions / free values y_0..y_{n-1}, y_n == y_0
-        L = t[n] - t[0]
-        if xq > t[n] or xq < t[0]:
-            xq = t[0] + (xq - t[0]) % L
         # moments M_0..M_{n-1} (M_n == M_0); equation at knot i (cyclically):
         # h_{i-1} M_{i-1} + 2 (h_{i-1}+h_i) M_i + h_i M_{i+1} = 6 ((y_{i+1}-y_i)/h_i - (y_i-y_{i-1})/h_{i-1})
         A = [[Fraction(0)] * n for _ in range(n)]
@@ -197,8 +200,9 @@ def cardinal_cubic(knots, x, periodic=False):
             B[i][(i - 1) % n] += 6 / hm
         if n == 1:
             # single interval, one function: the periodic spline through one value is constant
-            return [Fraction(1)]
-        Mfree = solve(A, B)  # n x nf
+            Mfree = [[Fraction(0)]]
+        else:
+            Mfree = solve(A, B)  # n x nf
         Mall = Mfree + [Mfree[0]]
         Y = [[Fraction(1) if i % n == j else Fraction(0) for j in range(nf)] for i in range(n + 1)]
     else:
@@ -223,6 +227,7 @@ def cardinal_cubic(knots, x, periodic=False):
             for r, i in enumerate(range(1, n)):
                 Mall[i] = sol[r]
         Y = [[Fraction(1) if i == j else Fraction(0) for j in range(nf)] for i in range(n + 1)]
+    cache[ckey] = (nf, Mall, Y)
 
     # locate the interval
     if xq <= t[0]:
